@@ -27,6 +27,7 @@ RULE = (
     ' Round 8: `flag` ops (the application sets Node.reboot); `tasks` (every message handled in a task of its own).'
     ' Round 10: the consumer edits the yielded message after each step; every line of the alphabet is repeated later in the history.'
     ' Round 11: environment sweep (see C03), judged on outcome and registry.'
+    ' Round 12: hidden-switch sweep; all 256 ids present themselves in one history; pass under `python -O`; eager task factory.'
 )
 ASSUMPTIONS = [
     "battery payloads in the definite class (plain decimal, no .5 tie, 0-100); other spellings are accepted either way",
